@@ -188,7 +188,11 @@ pub fn dump_sheet(ws: &Worksheet, p: &str, sec: Sections, d: &mut Dump) {
         }
         for c in ws.get_column_dimensions() {
             let cp = format!("{}/col/{}", p, c.get_col_num());
-            d.insert(format!("{}/w", cp), fbits(*c.get_width()));
+            // normal form: a column entry that only carries the library's default width (created as a
+            // by-product of get_cell_mut) is not a setting
+            if *c.get_width() != 8.38 {
+                d.insert(format!("{}/w", cp), fbits(*c.get_width()));
+            }
             if *c.get_hidden() {
                 d.insert(format!("{}/hidden", cp), "true".into());
             }
@@ -357,6 +361,31 @@ pub fn dump_book(book: &Spreadsheet, sec: Sections) -> Dump {
         }
     }
     d
+}
+
+/// object prefixes ("sh0/style/D4/", "sh0/row/3/style.", "sh0/col/2/style.") whose font is explicitly set.
+/// `None` means "font 0 of the workbook's style sheet", which the public API does not expose; a
+/// comparison across a re-save may therefore treat None-vs-Some as a wildcard (see C04 guards).
+pub fn explicit_font_objects(book: &Spreadsheet) -> std::collections::BTreeSet<String> {
+    let mut out = std::collections::BTreeSet::new();
+    for (i, ws) in book.get_sheet_collection_no_check().iter().enumerate() {
+        for c in ws.get_cell_collection() {
+            if c.get_style().get_font().is_some() && *c.get_coordinate().get_col_num() >= 1 {
+                out.insert(format!("sh{}/style/{}/", i, c.get_coordinate().get_coordinate()));
+            }
+        }
+        for r in ws.get_row_dimensions() {
+            if r.get_style().get_font().is_some() {
+                out.insert(format!("sh{}/row/{}/style.", i, r.get_row_num()));
+            }
+        }
+        for c in ws.get_column_dimensions() {
+            if c.get_style().get_font().is_some() {
+                out.insert(format!("sh{}/col/{}/style.", i, c.get_col_num()));
+            }
+        }
+    }
+    out
 }
 
 /// Guarded observation: a getter that panics on a corrupt model is itself an observed event.
